@@ -92,6 +92,31 @@ func c05RunOne(c *c05Case, spName string, usePath string) (class, msg string) {
 	if len(bad) > 0 {
 		return "roundtrip-structure", strings.Join(bad, "; ")
 	}
+	// The rendering omits targets without traffic share.  Whether a dynamic target next to fixed
+	// weights that add up to exactly 100% has share 0 or 1e-16 is float noise, so a target whose
+	// share is zero within the tolerance is no difference in either direction (it is unobservable
+	// by lookups); the specification's round-trip table holds the positive-share targets only.
+	noise := map[string]bool{} // targets of the original table whose share is zero within the tolerance
+	for k, ts := range got {
+		for _, x := range ts {
+			if x.Weight <= wTol {
+				noise[k+"|"+x.Svc+"|"+x.Dst+"|"+strings.Join(x.Tags, ",")] = true
+			}
+		}
+	}
+	for k, ts := range got2 {
+		var keep []pTarget
+		for _, x := range ts {
+			if x.Weight > wTol && !noise[k+"|"+x.Svc+"|"+x.Dst+"|"+strings.Join(x.Tags, ",")] {
+				keep = append(keep, x)
+			}
+		}
+		if len(keep) == 0 {
+			delete(got2, k)
+		} else {
+			got2[k] = keep
+		}
+	}
 	if cl, m := diffTable(got2, c.RT, sp, false); cl != "" {
 		return "roundtrip-" + cl, m + "\nrendering:\n" + text
 	}
